@@ -150,7 +150,10 @@ func (t *shared) ReleasePendingPages() {
 	}
 	// Release unused txid extents.
 	for _, tid := range t.readonlyTXIDs {
-		t.releaseRange(minid, tid-1)
+		// There is no extent below txid 0 (and tid-1 would wrap around).
+		if tid > 0 {
+			t.releaseRange(minid, tid-1)
+		}
 		minid = tid + 1
 	}
 	t.releaseRange(minid, common.Txid(math.MaxUint64))
